@@ -15,7 +15,7 @@ use wow_blp::convert::{
     blp_to_image, image_to_blp, AlphaBits, Blp2Format, BlpOldFormat, BlpTarget, DxtAlgorithm, FilterType,
 };
 use wow_blp::encode::{encode_blp, encode_blp0, save_blp};
-use wow_blp::parser::{load_blp, parse_blp, parse_blp_with_externals};
+use wow_blp::parser::{load_blp, load_blp_from_buf, parse_blp, parse_blp_with_externals};
 use wow_blp::{BlpContent, BlpImage};
 
 // ------------------------------------------------------------------ axes
@@ -134,22 +134,94 @@ fn targets(tier: Tier) -> Vec<Tgt> {
         }
     }
     if tier == Tier::Thorough {
+        // the four algorithm targets of the first thorough tier keep their positions ...
         v.push(Tgt { ver: 2, fmt: Fmt::Dxt1(true), alg: 1 });
         v.push(Tgt { ver: 2, fmt: Fmt::Dxt3(true), alg: 1 });
         v.push(Tgt { ver: 2, fmt: Fmt::Dxt5(true), alg: 1 });
         v.push(Tgt { ver: 2, fmt: Fmt::Dxt5(true), alg: 2 });
+        // ... and the rest of the product {dxt1,dxt3,dxt5} x {-alpha,+alpha} x {ClusterFit, IterativeClusterFit} follows
+        for alg in [1u8, 2] {
+            for a in [false, true] {
+                for fmt in [Fmt::Dxt1(a), Fmt::Dxt3(a), Fmt::Dxt5(a)] {
+                    if !v.iter().any(|t: &Tgt| t.ver == 2 && t.fmt == fmt && t.alg == alg) {
+                        v.push(Tgt { ver: 2, fmt, alg });
+                    }
+                }
+            }
+        }
     }
     v
 }
 
+/// number of leading targets that use RangeFit or no DXT at all (run on every size)
+const BASE_TARGETS: usize = 25;
+/// the four ClusterFit/IterativeClusterFit targets of the first thorough tier
+const LEGACY_ALG_TARGETS: usize = 4;
+
 const PIXEL_CLASSES: [&str; 5] = ["all_transparent", "few_colours_opaque", "many_colours_alpha_ramp", "checker_varying_alpha", "rgb8_input_few_colours"];
+
+/// thorough tier: the five classes above plus four more (other colour counts / every alpha value / other input pixel types)
+const PIXEL_CLASSES_DEEP: [&str; 9] = [
+    "all_transparent",
+    "few_colours_opaque",
+    "many_colours_alpha_ramp",
+    "checker_varying_alpha",
+    "rgb8_input_few_colours",
+    "exactly_256_colours_every_alpha_value",
+    "luma_alpha8_input",
+    "rgba16_input",
+    "rgb32f_input",
+];
+
+fn class_names(tier: Tier) -> &'static [&'static str] {
+    match tier {
+        Tier::Quick => &PIXEL_CLASSES,
+        Tier::Thorough => &PIXEL_CLASSES_DEEP,
+    }
+}
 
 /// alpha values straddling every 4-bit rounding boundary and the 1-bit ones; prime length so that
 /// the pattern never aligns with a row width
 const ALPHA_TABLE: [u8; 13] = [0, 255, 1, 8, 9, 16, 17, 127, 128, 136, 200, 247, 254];
 
+/// 16-bit alpha values around the 16->8 bit rounding points
+const ALPHA16_TABLE: [u16; 11] = [0, 0x00FF, 0x0100, 0x0180, 0x7FFF, 0x8000, 0x80FF, 0xFEFF, 0xFF00, 0xFFFF, 0x1234];
+
 /// Build the source image; returns it together with the RGBA pixels the library will see.
 fn make_image(w: u32, h: u32, class: usize) -> (DynamicImage, Vec<[u8; 4]>) {
+    // classes 6.. are inputs that are not 8-bit RGB(A): the 8-bit RGBA view of the `image` crate
+    // (`to_rgba8`, trusted) is the source the property speaks about
+    match class {
+        6 => {
+            let im = image::GrayAlphaImage::from_fn(w, h, |x, y| {
+                let i = (y * w + x) as usize;
+                image::LumaA([(x * 29 + y * 17) as u8, ALPHA_TABLE[(i * 3 + 1) % ALPHA_TABLE.len()]])
+            });
+            let d = DynamicImage::ImageLumaA8(im);
+            let px = rgba_of(&d);
+            return (d, px);
+        }
+        7 => {
+            let im = image::ImageBuffer::<image::Rgba<u16>, Vec<u16>>::from_fn(w, h, |x, y| {
+                let i = (y * w + x) as usize;
+                image::Rgba([(x * 4099 + y * 257) as u16, (y * 8191 + x * 3 + 0x80) as u16, ((x + y) * 0x0101 + 0x7F) as u16, ALPHA16_TABLE[i % ALPHA16_TABLE.len()]])
+            });
+            let d = DynamicImage::ImageRgba16(im);
+            let px = rgba_of(&d);
+            return (d, px);
+        }
+        8 => {
+            let im = image::Rgb32FImage::from_fn(w, h, |x, y| {
+                // includes values below 0, above 1 and exactly on .5/255 steps
+                let f = |v: u32| ((v % 301) as f32 - 20.0) / 255.0;
+                image::Rgb([f(x * 7 + y), f(y * 13 + 5), if (x + y) % 3 == 0 { 0.5 } else { f(x * y + 1) }])
+            });
+            let d = DynamicImage::ImageRgb32F(im);
+            let px = rgba_of(&d);
+            return (d, px);
+        }
+        _ => {}
+    }
     let mut px = Vec::with_capacity((w * h) as usize);
     for y in 0..h {
         for x in 0..w {
@@ -165,6 +237,11 @@ fn make_image(w: u32, h: u32, class: usize) -> (DynamicImage, Vec<[u8; 4]>) {
                     // > 256 distinct colours once there are > 256 pixels
                     let k = (i as u32).wrapping_mul(2654435761);
                     [(k >> 24) as u8, (k >> 13) as u8, (i as u32 * 5 + (k >> 5)) as u8, ALPHA_TABLE[i % ALPHA_TABLE.len()]]
+                }
+                5 => {
+                    // colour k of exactly 256 (once there are >= 256 pixels); alpha walks through all 256 values
+                    let k = (i % 256) as u32;
+                    [k as u8, (255 - k) as u8, (k * 7) as u8, ((i as u32 * 37 + i as u32 / 256) % 256) as u8]
                 }
                 _ => {
                     let c = if (x + y) % 2 == 0 { 255 } else { 0 };
@@ -197,6 +274,31 @@ fn filters(tier: Tier) -> Vec<(&'static str, FilterType)> {
     v
 }
 
+/// the sizes of the first thorough tier (kept as a subset; ClusterFit targets of that tier run on all of them)
+fn dims_legacy_thorough() -> Vec<(u32, u32)> {
+    let mut v = vec![];
+    let mut square = |sides: &[u32]| {
+        for &w in sides {
+            for &h in sides {
+                v.push((w, h));
+            }
+        }
+    };
+    square(&(1..=33).collect::<Vec<u32>>());
+    square(&[1, 2, 3, 4, 5, 7, 8, 16, 17, 31, 32, 33, 63, 64, 65, 127, 128, 129]);
+    square(&[1, 2, 4, 8, 16, 32, 64, 128, 256, 512]);
+    v.extend([(100, 60), (60, 100), (300, 200), (511, 512), (512, 511), (257, 255), (500, 3)]);
+    v.sort_by_key(|&(w, h)| (w.max(h), w * h, w));
+    v.dedup();
+    v
+}
+
+/// sides of the long thin images (levels whose short side stays clamped to 1 for most of the chain; 65535 is
+/// BLP_MAX_WIDTH and gives exactly the 16 levels the offset table can hold)
+const STRIP_LONG: [u32; 8] = [1024, 1025, 2048, 4096, 16384, 32767, 32768, 65535];
+/// sizes the converter has to refuse (side > BLP_MAX_WIDTH/HEIGHT)
+const REFUSED: [(u32, u32); 2] = [(65536, 1), (1, 65536)];
+
 fn dims(tier: Tier) -> Vec<(u32, u32)> {
     let mut v = vec![];
     let mut square = |sides: &[u32]| {
@@ -213,10 +315,23 @@ fn dims(tier: Tier) -> Vec<(u32, u32)> {
             v.extend([(256, 256), (256, 64), (64, 256), (512, 512), (100, 60)]);
         }
         Tier::Thorough => {
-            square(&(1..=33).collect::<Vec<u32>>());
-            square(&[1, 2, 3, 4, 5, 7, 8, 16, 17, 31, 32, 33, 63, 64, 65, 127, 128, 129]);
-            square(&[1, 2, 4, 8, 16, 32, 64, 128, 256, 512]);
-            v.extend([(100, 60), (60, 100), (300, 200), (511, 512), (512, 511), (257, 255), (500, 3)]);
+            square(&(1..=48).collect::<Vec<u32>>());
+            square(&[255, 256, 257]);
+            square(&[511, 512, 513]);
+            v.extend(dims_legacy_thorough());
+            // thin x wide in both orientations around every power of two up to 512
+            for s in [1u32, 2, 3, 5] {
+                for l in [63u32, 64, 65, 100, 127, 128, 129, 255, 256, 257, 300, 511, 512, 513] {
+                    v.extend([(s, l), (l, s)]);
+                }
+            }
+            v.extend([(512, 128), (128, 512), (384, 256), (320, 240), (240, 320)]);
+            for s in [1u32, 3] {
+                for l in STRIP_LONG {
+                    v.extend([(s, l), (l, s)]);
+                }
+            }
+            v.extend(REFUSED);
         }
     }
     v.sort_by_key(|&(w, h)| (w.max(h), w * h, w));
@@ -225,7 +340,7 @@ fn dims(tier: Tier) -> Vec<(u32, u32)> {
 }
 
 const DIMS_QUICK: &str = "{1..9,15,16,17,31,32,33}^2 + {1,2,4,..,64}^2 + 256x256, 256x64, 64x256, 512x512, 100x60";
-const DIMS_THOROUGH: &str = "{1..33}^2 + {1,2,3,4,5,7,8,16,17,31,32,33,63,64,65,127,128,129}^2 + {1,2,4,..,512}^2 + 100x60, 60x100, 300x200, 511x512, 512x511, 257x255, 500x3";
+const DIMS_THOROUGH: &str = "{1..48}^2 + {1,2,3,4,5,7,8,16,17,31,32,33,63,64,65,127,128,129}^2 + {1,2,4,..,512}^2 + {255,256,257}^2 + {511,512,513}^2 + {1,2,3,5} x {63,64,65,100,127,128,129,255,256,257,300,511,512,513} both orientations + {1,3} x {1024,1025,2048,4096,16384,32767,32768,65535} both orientations + 100x60, 60x100, 300x200, 511x512, 512x511, 257x255, 500x3, 512x128, 128x512, 384x256, 320x240, 240x320 + the two sizes that must be refused (65536x1, 1x65536)";
 
 // ------------------------------------------------------------------ the space
 
@@ -234,6 +349,8 @@ struct Main {
     dims: Vec<(u32, u32)>,
     targets: Vec<Tgt>,
     filters: Vec<(&'static str, FilterType)>,
+    /// (target index, size index) of every engine case, simplest first
+    cases: Vec<(u16, u32)>,
     scratch: Scratch,
 }
 
@@ -246,24 +363,70 @@ struct Case {
     filter: (&'static str, FilterType),
 }
 
+/// which (target, size) pairs are enumerated.
+/// quick: the full product. thorough: the 25 base targets x every size; the four ClusterFit/Iterative targets of the
+/// first thorough tier x every size of that tier and every size with sides <= 48; the remaining eight algorithm
+/// targets x every size with sides <= 33.
+fn case_list(tier: Tier, targets: &[Tgt], dims: &[(u32, u32)]) -> Vec<(u16, u32)> {
+    let mut v = vec![];
+    match tier {
+        Tier::Quick => {
+            // index = target + targets.len() * size (target varies fastest)
+            for d in 0..dims.len() {
+                for t in 0..targets.len() {
+                    v.push((t as u16, d as u32));
+                }
+            }
+        }
+        Tier::Thorough => {
+            let legacy = dims_legacy_thorough();
+            for (d, &(w, h)) in dims.iter().enumerate() {
+                let side = w.max(h);
+                let in_legacy = legacy.contains(&(w, h));
+                for t in 0..targets.len() {
+                    let ok = if t < BASE_TARGETS {
+                        true
+                    } else if t < BASE_TARGETS + LEGACY_ALG_TARGETS {
+                        in_legacy || side <= 48
+                    } else {
+                        side <= 33
+                    };
+                    if ok {
+                        v.push((t as u16, d as u32));
+                    }
+                }
+            }
+        }
+    }
+    v
+}
+
 impl Main {
     fn new(tier: Tier) -> Main {
-        Main { tier, dims: dims(tier), targets: targets(tier), filters: filters(tier), scratch: Scratch::new("c16") }
+        let (dims, targets) = (dims(tier), targets(tier));
+        let cases = case_list(tier, &targets, &dims);
+        Main { tier, dims, targets, filters: filters(tier), cases, scratch: Scratch::new("c16") }
     }
-    /// one case = (target, image size); the pixel classes and mipmap/filter settings are the inner loop
-    fn radices(&self) -> [u64; 2] {
-        [self.targets.len() as u64, self.dims.len() as u64]
+    /// one case = (target, image size); the pixel classes and mipmap/filter settings are the inner loop.
+    /// The ClusterFit/IterativeClusterFit targets (thorough only) run the five pixel classes of the quick tier.
+    fn n_classes(&self, i: u64) -> u64 {
+        let t = self.cases[i as usize].0 as usize;
+        if t >= BASE_TARGETS {
+            PIXEL_CLASSES.len() as u64
+        } else {
+            class_names(self.tier).len() as u64
+        }
     }
-    fn subs(&self) -> u64 {
-        (1 + self.filters.len() as u64) * PIXEL_CLASSES.len() as u64
+    fn subs(&self, i: u64) -> u64 {
+        (1 + self.filters.len() as u64) * self.n_classes(i)
     }
     fn sub_case(&self, i: u64, sub: u64) -> Case {
-        let d = gen::mixed_radix(i, &self.radices());
-        let e = gen::mixed_radix(sub, &[1 + self.filters.len() as u64, PIXEL_CLASSES.len() as u64]);
-        let (w, h) = self.dims[d[1] as usize];
+        let (t, d) = self.cases[i as usize];
+        let e = gen::mixed_radix(sub, &[1 + self.filters.len() as u64, self.n_classes(i)]);
+        let (w, h) = self.dims[d as usize];
         let mip = e[0] > 0;
         let filter = if mip { self.filters[e[0] as usize - 1] } else { self.filters[0] };
-        Case { w, h, class: e[1] as usize, tgt: self.targets[d[0] as usize], mip, filter }
+        Case { w, h, class: e[1] as usize, tgt: self.targets[t as usize], mip, filter }
     }
 }
 
@@ -320,13 +483,23 @@ fn first_diff<T: PartialEq>(a: &[T], b: &[T]) -> Option<usize> {
 
 impl Main {
     fn judge(&self, idx: u64, c: &Case, r: &mut CaseResult) {
+        let (img, src) = make_image(c.w, c.h, c.class);
+        judge_img(self.tier, &self.scratch, idx, c, PIXEL_CLASSES_DEEP[c.class], img, &src, r);
+    }
+}
+
+/// Convert `img` (whose 8-bit RGBA view is `src`) to the target of `c`, encode, parse, decode and judge everything.
+/// Returns the parsed texture (for chained conversions).
+#[allow(clippy::too_many_arguments)]
+fn judge_img(tier: Tier, scratch: &Scratch, idx: u64, c: &Case, label: &str, img: DynamicImage, src: &[[u8; 4]], r: &mut CaseResult) -> Option<BlpImage> {
+    let deep = tier == Tier::Thorough;
+    {
         let (w, h) = (c.w, c.h);
         let cls = c.tgt.class();
         let ver = c.tgt.ver_name();
         let kind = c.tgt.kind();
-        let (img, src) = make_image(w, h, c.class);
         let full = if c.mip { refblp::full_chain_levels(w, h) } else { 1 };
-        let ctx = format!("{}x{} {} {} {} mip={} filter={}", w, h, PIXEL_CLASSES[c.class], ver, c.tgt.fmt_name(), c.mip, c.filter.0);
+        let ctx = format!("{}x{} {} {} {} mip={} filter={}", w, h, label, ver, c.tgt.fmt_name(), c.mip, c.filter.0);
 
         // ---- convert
         let t = match image_to_blp(img, c.mip, c.tgt.to_target(), c.filter.1) {
@@ -336,7 +509,7 @@ impl Main {
                 r.outcome = format!("{ver}|{cls}|convert_err");
                 r.count("convert_refusals", 1);
                 let _ = e;
-                return;
+                return None;
             }
         };
         r.nontrivial = true;
@@ -396,7 +569,7 @@ impl Main {
                 Err(e) => {
                     r.viol(format!("encode_blp0 rejects the texture produced by image_to_blp [{ver} {cls}]"), format!("{ctx}: {e}"));
                     r.outcome = format!("{ver}|{cls}|lv{levels}|encode_err");
-                    return;
+                    return None;
                 }
             }
         } else {
@@ -405,7 +578,7 @@ impl Main {
                 Err(e) => {
                     r.viol(format!("encode_blp rejects the texture produced by image_to_blp [{ver} {cls}]"), format!("{ctx}: {e}"));
                     r.outcome = format!("{ver}|{cls}|lv{levels}|encode_err");
-                    return;
+                    return None;
                 }
             }
         };
@@ -434,18 +607,18 @@ impl Main {
             }
         };
         if let Some(p) = &parsed {
-            self.compare(c, &ctx, &t, p, "parse(encode(t))", r);
+            compare(c, &ctx, &t, p, "parse(encode(t))", r);
         }
 
-        // ---- BLP0 through the file system (save_blp / load_blp with .bNN side files)
-        if c.tgt.ver == 0 {
-            let path = self.scratch.path(&format!("c{idx}.blp"));
+        // ---- through the file system: save_blp / load_blp (BLP0 with its .bNN side files; thorough: BLP1/BLP2 too)
+        if c.tgt.ver == 0 || deep {
+            let path = scratch.path(&format!("c{idx}.blp"));
             match save_blp(&t, &path) {
                 Err(e) => r.viol(format!("save_blp rejects the texture produced by image_to_blp [{ver} {cls}]"), format!("{ctx}: {e}")),
                 Ok(()) => match load_blp(&path) {
                     Err(e) => {
                         let msg = format!("{e}");
-                        if msg.contains("no body of image") && levels < full {
+                        if c.tgt.ver == 0 && msg.contains("no body of image") && levels < full {
                             r.viol(
                                 "BLP0 parse demands more external mip levels than encode_blp0 produced (truncated non-square chain)",
                                 format!("{ctx}: load_blp(save_blp(t)): {msg}"),
@@ -455,30 +628,44 @@ impl Main {
                         }
                     }
                     Ok(p) => {
-                        self.compare(c, &ctx, &t, &p, "load_blp(save_blp(t))", r);
-                        r.count("blp0_fs_roundtrips", 1);
+                        compare(c, &ctx, &t, &p, "load_blp(save_blp(t))", r);
+                        r.count(if c.tgt.ver == 0 { "blp0_fs_roundtrips" } else { "blp1_blp2_fs_roundtrips" }, 1);
                     }
                 },
             }
             let _ = std::fs::remove_file(&path);
-            for i in 0..17 {
-                let _ = std::fs::remove_file(self.scratch.path(&format!("c{idx}.b{i:02}")));
+            if c.tgt.ver == 0 {
+                for i in 0..17 {
+                    let _ = std::fs::remove_file(scratch.path(&format!("c{idx}.b{i:02}")));
+                }
+            }
+        }
+        // ---- thorough: the in-memory loader entry point (no side files: BLP1/BLP2 only)
+        if deep && c.tgt.ver != 0 {
+            match load_blp_from_buf(&bytes) {
+                Err(e) => r.viol(format!("load_blp_from_buf rejects the encoder's output [{ver} {cls}]"), format!("{ctx}: {e}")),
+                Ok(p) => {
+                    compare(c, &ctx, &t, &p, "load_blp_from_buf(encode(t))", r);
+                    r.count("load_from_buf_roundtrips", 1);
+                }
             }
         }
 
         // ---- E: independent walk of the bytes
-        let lvl_data = self.walk_bytes(c, &ctx, &t, &bytes, &ext, r);
+        let lvl_data = walk_bytes(c, &ctx, &t, &bytes, &ext, r);
 
         // ---- F: pixels
         if let Some(ld) = &lvl_data {
-            self.pixels(c, &ctx, &src, &bytes, ld, parsed.as_ref(), r);
+            pixels(deep, c, &ctx, src, &bytes, ld, parsed.as_ref(), r);
         }
 
         r.outcome = format!("{ver}|{cls}|lv{levels}/{full}|{}", if r.viols.is_empty() { "held" } else { "viol" });
+        parsed
     }
+}
 
     /// structural comparison with classification of the difference
-    fn compare(&self, c: &Case, ctx: &str, t: &BlpImage, p: &BlpImage, rel: &str, r: &mut CaseResult) {
+    fn compare(c: &Case, ctx: &str, t: &BlpImage, p: &BlpImage, rel: &str, r: &mut CaseResult) {
         let cls = c.tgt.class();
         let ver = c.tgt.ver_name();
         r.count("structure_comparisons", 1);
@@ -534,7 +721,7 @@ impl Main {
     }
 
     /// Walk the file bytes with the independent reader. Returns (offset-or-external, bytes) of each level found.
-    fn walk_bytes(&self, c: &Case, ctx: &str, t: &BlpImage, bytes: &[u8], ext: &[Vec<u8>], r: &mut CaseResult) -> Option<Vec<Vec<u8>>> {
+    fn walk_bytes(c: &Case, ctx: &str, t: &BlpImage, bytes: &[u8], ext: &[Vec<u8>], r: &mut CaseResult) -> Option<Vec<Vec<u8>>> {
         let cls = c.tgt.class();
         let ver = c.tgt.ver_name();
         let kind = c.tgt.kind();
@@ -653,7 +840,7 @@ impl Main {
         Some(out)
     }
 
-    fn pixels(&self, c: &Case, ctx: &str, src: &[[u8; 4]], bytes: &[u8], lvl: &[Vec<u8>], parsed: Option<&BlpImage>, r: &mut CaseResult) {
+    fn pixels(deep: bool, c: &Case, ctx: &str, src: &[[u8; 4]], bytes: &[u8], lvl: &[Vec<u8>], parsed: Option<&BlpImage>, r: &mut CaseResult) {
         let ver = c.tgt.ver_name();
         let cls = c.tgt.class();
         let kind = c.tgt.kind();
@@ -693,10 +880,19 @@ impl Main {
         }
         match kind {
             Kind::Raw3 => {
+                // thorough: the Nearest filter only replicates pixels, so every pixel of a lower level occurs in the source
+                let nearest = deep && c.mip && c.filter.0 == "Nearest" && lvl.len() > 1;
+                let src_set: std::collections::HashSet<[u8; 4]> = if nearest { src.iter().copied().collect() } else { Default::default() };
                 for (i, data) in lvl.iter().enumerate() {
                     let (lw, lh) = refblp::level_dims(c.w, c.h, i);
                     let Ok(refpx) = refblp::decode_raw3(data, lw, lh) else { continue };
                     r.count("levels_decoded_by_reference", 1);
+                    if nearest && i > 0 {
+                        if let Some(k) = refpx.iter().position(|p| !src_set.contains(p)) {
+                            r.viol("raw3: lower mip level made with the Nearest filter holds a pixel that does not occur in the source image", format!("{ctx}: level {i} pixel {k}: {:?}", refpx[k]));
+                        }
+                        r.count("nearest_lower_levels_checked_against_source_pixel_set", 1);
+                    }
                     if i == 0 {
                         if let Some(k) = first_diff(&refpx, src) {
                             r.viol("raw3: level-0 pixels stored in the file differ from the source pixels", format!("{ctx}: pixel {k}: file {:?} source {:?}", refpx.get(k), src.get(k)));
@@ -713,10 +909,26 @@ impl Main {
             }
             Kind::Raw1(bits) => {
                 let Ok((pal, _)) = refblp::palette(bytes, &rh) else { return };
+                // thorough: the Nearest filter only replicates pixels, so a lower level stores no alpha value that level 0 does not store
+                let nearest = deep && c.mip && c.filter.0 == "Nearest" && lvl.len() > 1 && bits > 0;
+                let mut alpha0 = [false; 256];
+                let mut have0 = false;
                 for (i, data) in lvl.iter().enumerate() {
                     let (lw, lh) = refblp::level_dims(c.w, c.h, i);
                     let Ok(refpx) = refblp::decode_raw1(data, lw, lh, bits) else { continue };
                     r.count("levels_decoded_by_reference", 1);
+                    if nearest && i == 0 {
+                        for &(_, a) in &refpx {
+                            alpha0[a as usize] = true;
+                        }
+                        have0 = true;
+                    }
+                    if nearest && i > 0 && have0 {
+                        if let Some(k) = refpx.iter().position(|&(_, a)| !alpha0[a as usize]) {
+                            r.viol(format!("raw1: lower mip level made with the Nearest filter stores an alpha value that level 0 does not contain [a{bits}]"), format!("{ctx}: level {i} pixel {k}: alpha {}", refpx[k].1));
+                        }
+                        r.count("nearest_lower_levels_checked_against_source_alpha_set", 1);
+                    }
                     if i == 0 && refpx.len() == src.len() {
                         // alpha == source alpha quantised to the declared depth
                         let (mut max0, mut min1) = (-1i32, 256i32);
@@ -798,11 +1010,11 @@ impl Main {
             Kind::Dxt(_) => {}
         }
     }
-}
+
 
 impl Space for Main {
     fn len(&self) -> u64 {
-        gen::product(&self.radices())
+        self.cases.len() as u64
     }
     fn describe(&self, i: u64) -> Value {
         describe_case(&self.sub_case(i, 0))
@@ -813,7 +1025,7 @@ impl Space for Main {
         let _ = self.tier;
         let mut outcomes: Vec<String> = vec![];
         let mut refused = 0;
-        for sub in 0..self.subs() {
+        for sub in 0..self.subs(i) {
             let c = self.sub_case(i, sub);
             let mut s = CaseResult::new();
             // a panic in one setting must not hide the others
@@ -840,7 +1052,181 @@ impl Space for Main {
                 outcomes.push(s.outcome);
             }
         }
-        r.err_return = refused == self.subs();
+        r.err_return = refused == self.subs(i);
+        outcomes.sort();
+        r.outcome = outcomes.join(",");
+        r
+    }
+    fn case_timeout(&self) -> u64 {
+        300
+    }
+}
+
+// ------------------------------------------------------------------ chained conversions (thorough)
+
+/// image -> A -> bytes -> parse -> blp_to_image(level L) -> B -> bytes -> parse -> blp_to_image:
+/// the second conversion starts from a state reached by the first one (decoded level 0, 1 or 2 of A),
+/// and is judged by the same oracles with the decoded pixels as its source.
+struct Chain {
+    tier: Tier,
+    dims: Vec<(u32, u32)>,
+    stage1: Vec<Tgt>,
+    stage2: Vec<Tgt>,
+    scratch: Scratch,
+}
+
+const CHAIN_CLASSES: [usize; 2] = [2, 3];
+const CHAIN_LEVELS: [usize; 3] = [0, 1, 2];
+const CHAIN_DIMS: &str = "{1..16}^2 + {31,32,33,64,65}^2 + 100x60, 256x64, 64x256, 128x128, 255x257";
+
+fn chain_dims() -> Vec<(u32, u32)> {
+    let mut v = vec![];
+    for w in 1..=16u32 {
+        for h in 1..=16u32 {
+            v.push((w, h));
+        }
+    }
+    for w in [31u32, 32, 33, 64, 65] {
+        for h in [31u32, 32, 33, 64, 65] {
+            v.push((w, h));
+        }
+    }
+    v.extend([(100, 60), (256, 64), (64, 256), (128, 128), (255, 257)]);
+    v.sort_by_key(|&(w, h)| (w.max(h), w * h, w));
+    v.dedup();
+    v
+}
+
+/// first-stage targets: every decode path of blp_to_image (raw3; raw1 at each alpha depth incl. the RGB-only
+/// output of depth 0; each DXT flavour; JPEG) and every container version
+fn chain_stage1() -> Vec<Tgt> {
+    let t = |ver, fmt| Tgt { ver, fmt, alg: 0 };
+    vec![
+        t(2, Fmt::Raw3),
+        t(2, Fmt::Raw1(0)),
+        t(2, Fmt::Raw1(1)),
+        t(2, Fmt::Raw1(4)),
+        t(2, Fmt::Raw1(8)),
+        t(1, Fmt::Raw1(4)),
+        t(0, Fmt::Raw1(1)),
+        t(2, Fmt::Dxt1(false)),
+        t(2, Fmt::Dxt1(true)),
+        t(2, Fmt::Dxt3(true)),
+        t(2, Fmt::Dxt5(true)),
+        t(2, Fmt::Jpeg(false)),
+        t(1, Fmt::Jpeg(true)),
+        t(0, Fmt::Jpeg(true)),
+    ]
+}
+
+impl Chain {
+    fn new(tier: Tier) -> Chain {
+        let stage2: Vec<Tgt> = targets(tier).into_iter().take(BASE_TARGETS).collect();
+        Chain { tier, dims: chain_dims(), stage1: chain_stage1(), stage2, scratch: Scratch::new("c16chain") }
+    }
+    fn case(&self, i: u64) -> (Tgt, (u32, u32)) {
+        let d = gen::mixed_radix(i, &[self.stage1.len() as u64, self.dims.len() as u64]);
+        (self.stage1[d[0] as usize], self.dims[d[1] as usize])
+    }
+    fn mip_settings() -> [(bool, (&'static str, FilterType)); 3] {
+        [(false, ("Nearest", FilterType::Nearest)), (true, ("Nearest", FilterType::Nearest)), (true, ("Triangle", FilterType::Triangle))]
+    }
+}
+
+impl Space for Chain {
+    fn len(&self) -> u64 {
+        (self.stage1.len() * self.dims.len()) as u64
+    }
+    fn describe(&self, i: u64) -> Value {
+        let (a, (w, h)) = self.case(i);
+        json!({
+            "chain": "image -> stage1 -> decode level -> every target",
+            "stage1_version": a.ver_name(), "stage1_format": a.fmt_name(),
+            "w": w, "h": h,
+            "shape": if w == h { "square" } else { "nonsquare" },
+            "pow2": w.is_power_of_two() && h.is_power_of_two(),
+        })
+    }
+    fn run(&self, i: u64) -> CaseResult {
+        let mut r = CaseResult::new();
+        r.key = self.describe(i).to_string();
+        let (a, (w, h)) = self.case(i);
+        let mut outcomes: Vec<String> = vec![];
+        let mut uniq = 0u64;
+        for class in CHAIN_CLASSES {
+            let (img, _) = make_image(w, h, class);
+            // ---- stage 1 (its own correctness is judged in space `main`; here it only has to deliver a state)
+            let stage1 = guarded(|| -> Result<BlpImage, String> {
+                let t = image_to_blp(img.clone(), true, a.to_target(), FilterType::Triangle).map_err(|e| format!("convert: {e}"))?;
+                if a.ver == 0 {
+                    let e = encode_blp0(&t).map_err(|e| format!("encode: {e}"))?;
+                    let ext = &e.blp_mipmaps;
+                    parse_blp_with_externals(&e.blp_bytes, move |i| Ok(ext.get(i).map(|v| v.as_slice()))).map_err(|e| format!("parse: {e}"))
+                } else {
+                    parse_blp(&encode_blp(&t).map_err(|e| format!("encode: {e}"))?).map_err(|e| format!("parse: {e}"))
+                }
+            });
+            let p1 = match stage1 {
+                Ok(Ok(p)) => p,
+                _ => {
+                    r.count("stage1_unavailable", 1);
+                    continue;
+                }
+            };
+            for level in CHAIN_LEVELS {
+                if level >= p1.image_count() {
+                    continue;
+                }
+                let dec = match guarded(|| blp_to_image(&p1, level)) {
+                    Ok(Ok(d)) => d,
+                    _ => {
+                        r.count("stage1_level_undecodable", 1);
+                        continue;
+                    }
+                };
+                r.count("stage1_states_reached", 1);
+                let src2 = rgba_of(&dec);
+                let (w2, h2) = (dec.width(), dec.height());
+                let label = format!("decoded_level{level}_of_{}_{}_from_{}", a.ver_name(), a.fmt_name(), PIXEL_CLASSES_DEEP[class]);
+                for &b in &self.stage2 {
+                    for (mip, filter) in Chain::mip_settings() {
+                        let c = Case { w: w2, h: h2, class, tgt: b, mip, filter };
+                        let mut s = CaseResult::new();
+                        let mut via: Option<BlpImage> = None;
+                        uniq += 1;
+                        guard_case(&mut s, "chained sub-evaluation", |s| via = judge_img(self.tier, &self.scratch, uniq, &c, &label, dec.clone(), &src2, s));
+                        r.count("sub_evaluations", 1);
+                        if s.nontrivial {
+                            r.nontrivial = true;
+                        }
+                        if s.err_return {
+                            r.count("stage2_refusals", 1);
+                        }
+                        for (k, n) in s.counters {
+                            r.count(&k, n);
+                        }
+                        for v in s.viols {
+                            if !r.viols.iter().any(|x| x.symptom == v.symptom) {
+                                r.viols.push(v);
+                            } else {
+                                r.count("further_occurrences_of_reported_symptoms", 1);
+                            }
+                        }
+                        let o = format!("{}>{}", a.class(), s.outcome);
+                        if !outcomes.contains(&o) {
+                            outcomes.push(o);
+                        }
+                        // A -> raw3 -> X versus A -> X (informational: equality additionally needs a deterministic converter,
+                        // which the property does not state, so a difference is counted and not reported)
+                        if a.fmt == Fmt::Raw3 && level == 0 {
+                            if let (Some(via), Ok(Ok(direct))) = (via.as_ref(), guarded(|| image_to_blp(img.clone(), mip, b.to_target(), filter.1))) {
+                                r.count(if *via == direct { "image_via_raw3_to_X_equals_image_to_X" } else { "image_via_raw3_to_X_differs_from_image_to_X" }, 1);
+                            }
+                        }
+                    }
+                }
+            }
+        }
         outcomes.sort();
         r.outcome = outcomes.join(",");
         r
@@ -853,6 +1239,7 @@ impl Space for Main {
 fn build(name: &str, _arg: &str, tier: Tier) -> Box<dyn Space> {
     match name {
         "main" => Box::new(Main::new(tier)),
+        "chain" => Box::new(Chain::new(tier)),
         _ => panic!("space {name}"),
     }
 }
@@ -901,31 +1288,79 @@ fn main() {
     let Mode::Supervisor(mut c) = start("C16", "exploration", build) else { return };
     let tier = c.tier;
     let (d, t, f) = (dims(tier), targets(tier), filters(tier));
-    c.rule = format!(
-        "full product: {} image sizes ({}) x {} pixel classes x {} targets (BLP2: raw3, raw1 a0/1/4/8, dxt1/3/5 +-alpha, jpeg +-alpha; BLP1 and BLP0: raw1 a0/1/4/8, jpeg +-alpha{}) x (mipmaps off | mipmaps on x {} filters). \
-         One case = image_to_blp -> encode_blp/encode_blp0 -> parse_blp/parse_blp_with_externals (+ save_blp/load_blp for BLP0) -> blp_to_image, judged by PartialEq on BlpImage and by an independent byte-level walker. \
-         One engine case = (target, image size); its inner loop runs every pixel class x mipmap setting (counter sub_evaluations), reporting each symptom class once per case. \
-         A case is non-trivial when the converter accepted at least one image (bytes were produced); distinct by (target, size).",
-        d.len(),
-        match tier {
-            Tier::Quick => DIMS_QUICK,
-            Tier::Thorough => DIMS_THOROUGH,
-        },
-        PIXEL_CLASSES.len(),
-        t.len(),
-        if tier == Tier::Thorough { "; + ClusterFit for dxt1/3/5 alpha and IterativeClusterFit for dxt5" } else { "; DXT with RangeFit" },
-        f.len()
-    );
+    let cases = case_list(tier, &t, &d);
+    let classes = class_names(tier);
+    c.rule = match tier {
+        Tier::Quick => format!(
+            "full product: {} image sizes ({}) x {} pixel classes x {} targets (BLP2: raw3, raw1 a0/1/4/8, dxt1/3/5 +-alpha, jpeg +-alpha; BLP1 and BLP0: raw1 a0/1/4/8, jpeg +-alpha; DXT with RangeFit) x (mipmaps off | mipmaps on x {} filters). \
+             One case = image_to_blp -> encode_blp/encode_blp0 -> parse_blp/parse_blp_with_externals (+ save_blp/load_blp for BLP0) -> blp_to_image, judged by PartialEq on BlpImage and by an independent byte-level walker. \
+             One engine case = (target, image size); its inner loop runs every pixel class x mipmap setting (counter sub_evaluations), reporting each symptom class once per case. \
+             A case is non-trivial when the converter accepted at least one image (bytes were produced); distinct by (target, size).",
+            d.len(),
+            DIMS_QUICK,
+            classes.len(),
+            t.len(),
+            f.len()
+        ),
+        Tier::Thorough => format!(
+            "space main = {} engine cases (target, image size): [25 RangeFit/non-DXT targets (BLP2: raw3, raw1 a0/1/4/8, dxt1/3/5 +-alpha, jpeg +-alpha; BLP1 and BLP0: raw1 a0/1/4/8, jpeg +-alpha) x all {} image sizes] \
+             + [dxt1/3/5+alpha ClusterFit and dxt5+alpha IterativeClusterFit x (the {} sizes of the first thorough tier and every size with sides <= 48)] \
+             + [the other 8 of the product {{dxt1,dxt3,dxt5}} x {{-alpha,+alpha}} x {{ClusterFit,IterativeClusterFit}} x every size with sides <= 33]. \
+             Image sizes: {}. Inner loop of a case (counter sub_evaluations) = full product of pixel classes x (mipmaps off | mipmaps on x {} filters: {}); \
+             the 25 base targets run all {} pixel classes ({}), the 12 ClusterFit/Iterative targets the first {}. \
+             One sub-evaluation = image_to_blp -> encode_blp/encode_blp0 -> parse_blp/parse_blp_with_externals -> save_blp/load_blp (every version; BLP0 with its .bNN side files) -> load_blp_from_buf (BLP1/2) -> blp_to_image of every level, \
+             judged by PartialEq on BlpImage and by an independent byte-level walker/decoder; with the Nearest filter every pixel (raw3) / stored alpha value (raw1) of a lower level must occur in level 0. \
+             Sizes with a side of 65536 must be refused by the converter (Err) and count as error returns. \
+             space chain = {} engine cases (first-stage target A, image size): {} first-stage targets (every blp_to_image decode path and container version) x {} sizes ({}); inner loop = 2 pixel classes x decoded level L in {{0,1,2}} of parse(encode(image_to_blp(image, mipmaps on, A, Triangle))) \
+             x 25 second-stage targets B x (mipmaps off | Nearest | Triangle): the decoded level is converted to B and the whole main-space judgement is applied with the decoded pixels as source \
+             (A->B->A for B=A, lossy->lossless, lossless->lossy, paletted RGB-only output as input); image->raw3->X vs image->X is counted, not judged. \
+             Each symptom class is reported once per engine case. A case is non-trivial when the converter accepted at least one image; distinct by (target, size).",
+            cases.len(),
+            d.len(),
+            dims_legacy_thorough().len(),
+            DIMS_THOROUGH,
+            f.len(),
+            f.iter().map(|x| x.0).collect::<Vec<_>>().join("/"),
+            classes.len(),
+            classes.join(", "),
+            PIXEL_CLASSES.len(),
+            chain_stage1().len() * chain_dims().len(),
+            chain_stage1().len(),
+            chain_dims().len(),
+            CHAIN_DIMS,
+        ),
+    };
     c.assume("the `image` crate (JPEG codec, resize) and `texpresso` are trusted third-party code; lossy encodings (JPEG, DXT) are judged on structure and dimensions only");
     c.assume("reference walker/decoder /verif/harness/props/c16/src/refblp.rs is written from /repo/docs/src/formats/graphics/blp.md and reads file bytes only");
     c.assume("alpha quantisation: 8 bit exact; 4 bit either round-to-nearest or truncation of the source alpha; 1 bit any monotone threshold with 0->0 and 255->1 (the property fixes the depth, not the rounding rule)");
     c.assume("palette byte order (R,G,B,x vs B,G,R,x) is not fixed by the property; either is accepted if used consistently (observed order is reported in the counters)");
     c.assume("pixel preservation is judged on level 0 (the source image); lower levels are judged on dimensions, sizes and library-vs-reference decode agreement");
+    if tier == Tier::Thorough {
+        c.assume("for inputs that are not 8-bit RGB(A) (LumaA8, Rgba16, Rgb32F) the source pixels of the property are the 8-bit RGBA view computed by the `image` crate (DynamicImage::to_rgba8)");
+        c.assume("FilterType::Nearest of the `image` crate copies one source pixel per output pixel (no blending); used only for the lower-level subset oracle");
+        c.assume("chained conversions: the decoded image returned by blp_to_image is the source of the second conversion; failures of the first stage itself are judged in space main, not in space chain");
+    }
     c.run_space("main", "");
-    c.extra_cov.insert(
-        "axes".into(),
-        json!({"image_sizes": d.len(), "pixel_classes": PIXEL_CLASSES.len(), "targets": t.len(), "mip_filter_settings": 1 + f.len(),
-               "nonsquare_sizes": d.iter().filter(|(w, h)| w != h).count(), "non_pow2_sizes": d.iter().filter(|(w, h)| !(w.is_power_of_two() && h.is_power_of_two())).count()}),
-    );
+    if tier == Tier::Thorough {
+        c.run_space("chain", "");
+    }
+    let mut axes = json!({"image_sizes": d.len(), "pixel_classes": classes.len(), "targets": t.len(), "mip_filter_settings": 1 + f.len(),
+               "nonsquare_sizes": d.iter().filter(|(w, h)| w != h).count(), "non_pow2_sizes": d.iter().filter(|(w, h)| !(w.is_power_of_two() && h.is_power_of_two())).count()});
+    if tier == Tier::Thorough {
+        let m = axes.as_object_mut().unwrap();
+        m.insert("main_engine_cases".into(), json!(cases.len()));
+        m.insert("base_targets_on_every_size".into(), json!(BASE_TARGETS));
+        m.insert("clusterfit_iterative_targets".into(), json!(t.len() - BASE_TARGETS));
+        m.insert("pixel_classes_for_clusterfit_iterative_targets".into(), json!(PIXEL_CLASSES.len()));
+        m.insert("sizes_with_a_side_over_512".into(), json!(d.iter().filter(|(w, h)| *w.max(h) > 512).count()));
+        m.insert("sizes_that_must_be_refused".into(), json!(REFUSED.len()));
+        m.insert("chain_stage1_targets".into(), json!(chain_stage1().len()));
+        m.insert("chain_sizes".into(), json!(chain_dims().len()));
+        m.insert("chain_source_classes".into(), json!(CHAIN_CLASSES.len()));
+        m.insert("chain_decoded_levels".into(), json!(CHAIN_LEVELS.len()));
+        m.insert("chain_stage2_targets".into(), json!(BASE_TARGETS));
+        m.insert("chain_stage2_mip_settings".into(), json!(3));
+    }
+    c.extra_cov.insert("axes".into(), axes);
     c.finish();
 }
